@@ -97,6 +97,7 @@ type Frame struct {
 
 type Exec struct {
 	staticSeen map[string]bool
+	fvCells    map[string]int // free variables of the function under verification: spec name -> cell
 	prog      *Program
 	st        *Symtab
 	mode      Mode
@@ -288,6 +289,11 @@ func (ex *Exec) Run() (err error) {
 		s.cells[cell] = ex.symbolicParam(s, fv.Name(), pt.Elem())
 		fvs = append(fvs, PtrV{Kind: PCell, Cell: cell, Elem: pt.Elem()})
 		s.names[fv.Name()] = s.cells[cell]
+		if ex.fvCells == nil {
+			ex.fvCells = map[string]int{}
+		}
+		// "jump$1" (synthetic range-over-func state) is written jump_1 in contracts
+		ex.fvCells[strings.ReplaceAll(fv.Name(), "$", "_")] = cell
 	}
 	fr := &Frame{fn: fn, env: map[ssa.Value]Value{}, top: true, contract: ex.contract, args: args}
 	for i, p := range fn.Params {
@@ -304,7 +310,14 @@ func (ex *Exec) Run() (err error) {
 			v := env.eval(l.Expr)
 			s.ghost[l.Label] = v
 		}
+		if len(ex.contract.ClosureInv) > 0 {
+			// body closure of a range-over-func loop: earlier calls may have happened
+			s.ghost["stopped"] = BoolV{T: ex.st.Fresh("stopped.entry", SBool)}
+		}
 		for _, r := range ex.contract.Captures {
+			s.assume(env.evalAssume(r.Expr))
+		}
+		for _, r := range ex.contract.ClosureInv {
 			s.assume(env.evalAssume(r.Expr))
 		}
 		for _, r := range ex.contract.Requires {
@@ -477,6 +490,10 @@ func (ex *Exec) checkPost(fr *Frame, s *State, results []Value, retIdx int) {
 		}
 		g := env.evalProve(e.Expr)
 		ex.emit(s, "ensures", fmt.Sprintf("%s/%s/%s%s", ex.layer, ex.fnName, label, suffix), g, fr.fn.Pos(), fmt.Sprintf("return path %d: %s", retIdx, e.Src))
+	}
+	for i, e := range ex.contract.ClosureInv {
+		g := env.evalProve(e.Expr)
+		ex.emit(s, "ensures", fmt.Sprintf("%s/%s/closure_inv#%d%s", ex.layer, ex.fnName, i+1, suffix), g, fr.fn.Pos(), fmt.Sprintf("return path %d: %s", retIdx, e.Src))
 	}
 	if _, noalloc := ex.contract.Opts["noalloc"]; noalloc {
 		before := fr.entry.H(ex, "alloc", ArrSort(SRef, SBool))
